@@ -4,7 +4,7 @@ use std::collections::BTreeMap;
 
 use crate::exec::{Scenario, Stats, Violation};
 
-pub const PROPS: [&str; 2] = ["C01", "C12"];
+pub const PROPS: [&str; 8] = ["C01", "C03", "C04", "C11", "C12", "C13", "C14", "C16"];
 
 pub fn level(prop: &str) -> &'static str {
     match prop {
